@@ -125,7 +125,14 @@ func readV2Header(buf []byte, r io.Reader) (*Header, error) {
 		case 0x31, 0x32: // Unix socket (TCP/UDP)
 			// Not implemented by haproxy and I see no need to implement it here, patches welcome!
 			return &h, errors.New("received UNIX socket proxy command, Currently not supported")
+		default:
+			// AF_UNSPEC or an unknown family, the header carries no usable addresses.
+			// The receiver must ignore them and use the ones of the socket.
+			h.IsLocal = true
 		}
+	default:
+		// The receiver must drop connections presenting unexpected commands.
+		return nil, fmt.Errorf("unexpected command '%X' at pos '13'", buf[12]&0x0F)
 	}
 
 	// If there is trailing data, it should be TLVs
